@@ -18,7 +18,7 @@ HOOKS = {
 
 ENGINES = [
     {'name': 'vf', 'path': 'vf/harness.py',
-     'serves_properties': ['C01', 'C02', 'C03', 'C05', 'C07', 'C08', 'C09', 'C13', 'C15', 'C16', 'C20'],
+     'serves_properties': ['C01', 'C02', 'C03', 'C04', 'C05', 'C07', 'C08', 'C09', 'C13', 'C15', 'C16', 'C20'],
      'kind_free_text': ('runtime monitoring driver: 16 worker processes import the real '
                         'openhtf from /repo, run enumerated + seeded cases, monitors '
                         'decide each property from observed events; witnesses are '
@@ -169,5 +169,20 @@ CHECKS = {
                  'reached => no main or teardown body ran'),
         'note': ('preemption bound 1 over reached lines; groups in a teardown sequence under an already failed subtest are '
                  'don\'t-care; trusts vf/grouporacle.py'),
+    },
+    'C04': {
+        'level': 'exploration',
+        'technique': 'runtime trace monitoring under controlled schedules: sys.monitoring pause points over the executor/phase/main threads with operator actions (abort call, real SIGINT in a child process, SIGINT handler on the main thread at a line of execute(), second abort), plus yield-injection stress',
+        'text': ('ten programs (test_start, nested groups, subtests, repeats, failing main/teardown, branches, a body that only '
+                 'ends when killed, long teardowns, plugs) are run once per sampled (quick) or every (thorough, hits <= 3) '
+                 'reached (thread role, function, line, hit) with that thread paused while the action completes; trace '
+                 'predicates: execute() returns or re-raises KeyboardInterrupt (stack-sampled deadlock witness otherwise), no '
+                 'test_start/setup/main body starts after the abort call returned, nothing starts after a second abort or after '
+                 'finalization, entered groups\' teardown and every plug tearDown run exactly once, outcome ABORTED when the '
+                 'abort returned before plug tearDown began, callbacks exactly once with a finalized record, never two bodies at '
+                 'once, a running cooperative body is asked to terminate, post-state (no executor, not registered)'),
+        'note': ('preemption bound 1 (2 sampled for double aborts) over reached lines; known findings F6/F18 (handler on the main '
+                 'thread while execute() is outside _executor.wait()) are keyed by region of Test.execute in known_findings.json; '
+                 'real-SIGINT schedules run in child processes because a self-deadlocked main thread cannot be abandoned'),
     },
 }
